@@ -190,11 +190,34 @@ def dataset_interp(ctx, n, k, fills='default', via='interp_axis'):
     return ctx.done(ok, ctx.observe(res))
 
 
+def width_unsigned(ctx, ukind, order):
+    """decided by its real-stack replay (dtype widths are not modelled): node labels stored as unsigned integers (differences
+    wrap instead of going negative) in any stored order"""
+    np = ctx.np
+    labs = {'unsorted': [3, 0, 1], 'dec': [3, 1, 0], 'inc': [0, 1, 3], 'unsorted2': [1, 3, 0]}[order]
+    new = [0.0, 0.5, 1.0, 2.0, 3.0]
+    exp = [0.0, 5.0, 10.0, 20.0, 30.0]
+    x = np.array(labs, dtype=ukind)
+    a = ctx.da.DimArray(np.array([10.0 * l for l in labs]), axes=[x], dims=['x'])
+    b = ctx.da.DimArray(np.array([[10.0 * l for l in labs], [20.0 * l for l in labs]]), axes=[['a', 'b'], x], dims=['k', 'x'])
+    r = ctx.call(lambda: (a.interp_axis(new, axis='x'), b.interp_axis(new, axis='x'), a.interp_axis([0, 1, 3], axis='x')))
+    if r[0] != 'ok':
+        return ctx.done(False, r[1])
+    ra, rb, rn = r[1]
+    close = lambda u, v: len(u) == len(v) and all(abs(p - q) < 1e-9 for p, q in zip(u, v))
+    ok = (ra.axes['x'].values.tolist() == new and close(ra.values.tolist(), exp) and rb.dims == ('k', 'x') and rb.axes['k'].values.tolist() == ['a', 'b']
+          and close(rb.values.tolist()[0], exp) and close(rb.values.tolist()[1], [2 * e for e in exp]) and rn.values.tolist() == [0.0, 10.0, 30.0])
+    return ctx.done(ok, [ctx.observe(ra), ctx.observe(rb), ctx.observe(rn)])
+
+
 def templates():
     ts = []
 
     def add(name, fn, tier='quick', cost=1.0, **params):
         ts.append({'name': name, 'fn': fn, 'params': params, 'tier': tier, 'cost': cost})
+    for uk in ('uint8', 'uint16', 'uint64'):
+        for order in ('unsorted', 'unsorted2', 'dec', 'inc'):
+            add('width-unsigned-%s-%s' % (uk, order), 'width_unsigned', cost=0.1, ukind=uk, order=order)
     pc = {(1, 1): 0.1, (2, 1): 0.2, (3, 1): 1, (4, 1): 8, (1, 2): 0.3, (2, 2): 1, (3, 2): 8, (2, 3): 6, (3, 3): 60, (4, 2): 80}
     for (n, k), c in sorted(pc.items()):
         for lk in 'fi':
